@@ -31,7 +31,7 @@ pub const CHECKS: &[CheckDef] = &[
     CheckDef { id: "C13", level: "exploration", rules: &["C13.", "C11.consistent", "C10.residue", "CRASH."], quick_runs: 4000, thorough_runs: 100_000, nontrivial_rule: ">=1 walk of >=2 pages over a listing that had deletions before it, or a forged decodable token" },
     CheckDef { id: "C14", level: "exploration", rules: &["C14.", "C09.fields", "C03.double", "CRASH."], quick_runs: 5000, thorough_runs: 150_000, nontrivial_rule: ">=1 POST was answered with a non-accepting behaviour and the same message was POSTed again" },
     CheckDef { id: "C15", level: "exploration", rules: &["C15.", "C06.quiescent", "CRASH."], quick_runs: 5000, thorough_runs: 150_000, nontrivial_rule: ">=1 Pull whose max_messages was smaller than the number of available messages, or a parked Pull that was woken" },
-    CheckDef { id: "C16", level: "fault_enumeration", rules: &["C16.", "C01.lost", "C01.redelivery", "C06.quiescent", "C07.", "CRASH."], quick_runs: 5000, thorough_runs: 150_000, nontrivial_rule: "the target request was actually dropped at its k-th real suspension (outcome Abandoned); distinct = distinct (request kind, k, mailbox state, schedule fingerprint)" },
+    CheckDef { id: "C16", level: "fault_enumeration", rules: &["C16.", "C01.lost", "C01.redelivery", "C06.quiescent", "C07.", "C14.retry", "CRASH."], quick_runs: 5000, thorough_runs: 150_000, nontrivial_rule: "the target request was actually dropped at its k-th real suspension (outcome Abandoned); distinct = distinct (request kind, k, mailbox state, schedule fingerprint)" },
     CheckDef { id: "C17", level: "exploration", rules: &["C17.", "C01.", "C02.", "C03.", "C07.", "C14.retry", "C14.nonpush", "CRASH."], quick_runs: 5000, thorough_runs: 150_000, nontrivial_rule: ">=3 malformed requests were rejected with INVALID_ARGUMENT while valid traffic ran alongside" },
 ];
 
@@ -223,8 +223,11 @@ pub fn generate(id: &str, run_seed: u64, _thorough: bool) -> Plan {
         }
         "C14" => f_push(run_seed, pick < 35),
         "C16" => {
-            if pick < 85 {
+            if pick < 77 {
                 f_cancel(run_seed)
+            } else if pick < 85 {
+                // push subscriptions whose creating client goes away before it is answered
+                f_push(run_seed, false)
             } else {
                 // consumers that go away while parked / while being woken, next to consumers that stay
                 f_consumers(run_seed, true).with_tag("cancel")
